@@ -170,9 +170,11 @@ impl Oplog {
                         get_slices_checked(&existing, OplogSlot::Entries as usize)?.1;
                     let mut entries: Vec<Entry> = Vec::new();
                     let mut partials: Vec<bool> = Vec::new();
+                    let mut entries_byte_length: usize = 0;
                     while let Some(entry_outcome) = Self::validate_leader(entries_buff)? {
                         let res = Entry::decode(entry_outcome.state)?;
                         entries.push(res.0);
+                        entries_byte_length += entries_buff.len() - res.1.len();
                         entries_buff = res.1;
                         partials.push(entry_outcome.partial_bit);
                     }
@@ -180,6 +182,19 @@ impl Oplog {
                     // Remove all trailing partial entries
                     while !partials.is_empty() && partials[partials.len() - 1] {
                         entries.pop();
+                    }
+
+                    // New entries must be appended after the ones that were just read
+                    outcome.oplog.entries_length = entries.len() as u64;
+                    outcome.oplog.entries_byte_length = entries_byte_length as u64;
+
+                    // Like Javascript, drop whatever follows the last valid entry, so that it
+                    // can not be mistaken for entries once new ones are written before it.
+                    let entries_end = OplogSlot::Entries as usize + entries_byte_length;
+                    if entries_end < existing.len() && outcome.infos_to_flush.is_empty() {
+                        outcome.infos_to_flush =
+                            vec![StoreInfo::new_truncate(Store::Oplog, entries_end as u64)]
+                                .into_boxed_slice();
                     }
                     outcome.entries = Some(entries.into_boxed_slice());
                 }
